@@ -796,6 +796,11 @@ func scanFields(buf []byte, i int) (int, []byte, error) {
 		if buf[i] == '=' && !quoted {
 			equals++
 
+			// check for "=123" right at the start of the field set (after skipped tabs or NULs)
+			if i == start {
+				return i, buf[start:i], fmt.Errorf("missing field key")
+			}
+
 			// check for "... =123" but allow "a\ =123"
 			if buf[i-1] == ' ' && buf[i-2] != '\\' {
 				return i, buf[start:i], fmt.Errorf("missing field key")
